@@ -303,6 +303,10 @@ func check(c *pruneCase, o *vk.Obs) []string {
 		}
 	}
 	var got *profile.Profile
+	if c.Mode == 0 || c.Mode == 1 || c.Mode == 3 {
+		// the object has been serialized once before the rule is applied (a fetched profile is saved first)
+		_ = p.Copy()
+	}
 	switch c.Mode {
 	case 0:
 		if err := p.RemoveUninteresting(); err != nil {
@@ -341,6 +345,16 @@ func check(c *pruneCase, o *vk.Obs) []string {
 		if err != nil {
 			e.Addf("pprof -proto output does not parse: %v", err)
 			return e
+		}
+	}
+	if c.Mode == 0 || c.Mode == 1 || c.Mode == 3 {
+		// ... and is serialized again afterwards: the copy has the stacks the pruned object has
+		cp := got.Copy()
+		for i := range got.Sample {
+			if i < len(cp.Sample) && fstr(framesRootFirst(cp.Sample[i])) != fstr(framesRootFirst(got.Sample[i])) {
+				e.Addf("sample %d: a copy taken after pruning (the object had been serialized once before) has frames %s, the pruned object has %s", i, fstr(framesRootFirst(cp.Sample[i])), fstr(framesRootFirst(got.Sample[i])))
+				break
+			}
 		}
 	}
 	if drop == nil && !pruneFromMode && c.Mode <= 1 {
